@@ -69,6 +69,12 @@ def run(ctx):
         f = ctx.fn(h)
         got = bits.decode_uses(ctx, f)
         want = {tuple(u) for u in sp["uses"]}
+        if (9, 3, False, "cc-mask") in want and (9, 3, False, "cc-mask") not in got:
+            # the mask is not and-ed with the flag in one expression (a match on the flag with one bit test per arm, say): decide the
+            # branch condition itself, for every flag state, every mask and the extreme offsets
+            if _br_taken_iff_mask(prog, f):
+                got = {u for u in got if not (u[3] in ("test", "switch") and isinstance(u[0], int) and 9 <= u[0] and u[0] + u[1] <= 12)}
+                got.add((9, 3, False, "cc-mask"))
         ctx.instance(1, {"opcode": hex(i), "handler": short(h), "uses": sorted(map(list, got), key=str)} if i in (1, 6) else None)
         nrows += len(got)
         # which bits steer the decoding matters, not whether they are tested one at a time or matched as one field
@@ -231,7 +237,37 @@ def run(ctx):
     ctx.oblig(ok)
     if not ok:
         ctx.violation("trap-vectors", sp_file_line(t.get("sp")), "the VM implements trap vectors %s, the ISA/README list %s" % ([hex(v) for v in vecs], [hex(v) for v in want]))
-    dflt = tr.reachable(t["otherwise"])
+    # where an unknown vector goes: the walk from the entry that follows, at every branch decided by the instruction word alone, the edge
+    # an unknown vector takes (the default arm of the switch, or a range / comparison test in front of it), and every edge elsewhere
+    def unknown_vector_region():
+        unknown = [v for v in range(256) if v not in vecs]
+        seen, todo = set(), [0]
+        while todo:
+            bb = todo.pop()
+            if bb in seen:
+                continue
+            seen.add(bb)
+            tt = tr.term(bb)
+            nxt = None
+            if tt["k"] == "switch":
+                c = tr.expr(tt["a"], 10)
+                tg = {v: x for v, x in tt["targets"]}
+                outs = set()
+                try:
+                    for v in unknown:
+                        val = formula.evaluate(c, {"args": {2: v, "instr": v}, "prog": prog})
+                        val = int(val) if isinstance(val, bool) else val
+                        outs.add(tg.get(val, tt["otherwise"]))
+                    nxt = sorted(outs)
+                except (formula.Unknown, formula.Overflow):
+                    nxt = None
+            if nxt is None:
+                nxt = [x for x in tr.succ_map()[bb] if not tr.blocks[x].get("cleanup")]
+            todo += nxt
+        return seen
+    dflt = unknown_vector_region() if sw[0] in tr.reachable(0) else tr.reachable(t["otherwise"])
+    # what lies in front of the vector test is shared by every trap and is accounted for under R3/R4; the clause is about what only an
+    # unknown vector reaches, plus anything it passes on the way that writes the machine
     exits = [(bb, tt) for bb, tt, c in tr.calls() if bb in dflt and c == "std::process::exit"]
     ws = eff.site_writes(tr, 1, dflt)
     rets = [bb for bb in dflt if tr.term(bb)["k"] == "return"]
@@ -406,6 +442,37 @@ def range_loop_bound(fn, op):
                     if y[2][0][0] == "const" and y[2][1][0] == "const":
                         return (y[2][0][1], y[2][1][1] - 1)
     return None
+
+
+def _br_taken_iff_mask(prog, f):
+    """does the handler write the PC exactly when the instruction's n/z/p bit of the current condition code is set? Decided by evaluating
+    its decision structure for the four flag states x eight masks x three offsets x both values of the bits above the mask"""
+    RF = "lace::runtime::RunFlag"
+    if not prog.adt(RF):
+        return False
+    try:
+        tree = formula.decision(f, result_place=lambda p: [e.get("n") for e in p.get("pr", []) if isinstance(e, dict) and "f" in e][-1:] == ["pc"])
+    except formula.NotATree:
+        return False
+    bit = {"N": 4, "Z": 2, "P": 1}
+    for v in prog.adt(RF)["variants"]:
+        d = v.get("discr", v["idx"])
+        def subst(e, d=d):
+            if e[0] == "discr" and e[2] == RF:
+                return d
+            return None
+        for m in range(8):
+            for off in (0, 1, 0x1FF):
+                for hi_ in (0, 0xF000):
+                    w = hi_ | (m << 9) | off
+                    try:
+                        lab = formula.eval_decision(tree, {"args": {2: w, "instr": w}, "subst": subst, "prog": prog})
+                    except (formula.Unknown, formula.Overflow):
+                        return False
+                    taken = lab is not None and lab != ("unreachable",)
+                    if taken != bool(bit.get(v["name"], 0) & m):
+                        return False
+    return True
 
 
 def _cmp_only(c):
